@@ -258,3 +258,41 @@ Proof.
   revert prior; induction runs as [|[e r] runs IH]; intros prior; cbn; [reflexivity|].
   destruct (stale_run prior e r) as [del st]. cbn. rewrite IH. reflexivity.
 Qed.
+
+(* The lower bound of the property ("every path meeting those conditions is removed"), on canonical spellings:
+   a path of the previous list that is not listed now and lies under a root [join cs ++ separators] as
+   [join (cs ++ ds) ++ t1] (t1 empty or starting with a separator) IS in the deletion list.  With no roots
+   every obsolete path is.  The harness oracle [c14.run_recording] demands exactly this of the real remove() calls. *)
+Lemma must_delete prior expected roots p r cs ds t1 t2 :
+  In p prior -> ~ In p expected -> In r roots ->
+  forallb comp_ok cs = true -> all_seps t2 -> head_is_sep_or_end t1 = true ->
+  r = join cs ++ t2 -> p = join (cs ++ ds) ++ t1 -> absolute p = true ->
+  In p (to_delete prior expected roots).
+Proof.
+  intros Hp Hne Hr Hcs Ht2 Ht1 -> -> Habs. apply to_delete_spec. split; [exact Hp|]. split; [exact Hne|].
+  unfold allowed. destruct roots as [|r0 roots]; [reflexivity|].
+  apply andb_true_iff. split; [exact Habs|].
+  apply existsb_exists. exists (join cs ++ t2). split; [exact Hr|].
+  apply pip_complete; assumption.
+Qed.
+
+Lemma must_delete_no_roots prior expected p :
+  In p prior -> ~ In p expected -> In p (to_delete prior expected []).
+Proof. intros Hp Hne. apply to_delete_spec. split; [exact Hp|]. split; [exact Hne | reflexivity]. Qed.
+
+(* the same at any position of any history (restarts in between do not matter) *)
+Lemma must_delete_history runs0 prior e0 r0 e1 r1 rest p r cs ds t1 t2 :
+  In p e0 -> ~ In p e1 -> In r r1 ->
+  forallb comp_ok cs = true -> all_seps t2 -> head_is_sep_or_end t1 = true ->
+  r = join cs ++ t2 -> p = join (cs ++ ds) ++ t1 -> absolute p = true ->
+  In p (nth (S (length runs0)) (stale_history prior (runs0 ++ (e0, r0) :: (e1, r1) :: rest)) []).
+Proof. intros. rewrite stale_history_step. eapply must_delete; eassumption. Qed.
+
+(* non-vacuity: "//a" (one component, doubled leading separator) under the root "/" - the case of seed C14-9 *)
+Lemma must_delete_instance :
+  In [47;47;97] (to_delete [[47;47;97]; [98]] [[98]] [[47]]).
+Proof.
+  apply (must_delete _ _ _ _ [47] [] [] [47;47;97] [47]); cbn; auto.
+  - intros [H|[]]; discriminate H.
+  - repeat constructor.
+Qed.
